@@ -7,7 +7,7 @@ import re
 
 from .utils import to_float
 
-re_data = re.compile(r'^\s*(\**[a-zA-Z]+[^0-9]*)([0-9]*)(\*?)(.*)$')
+re_data = re.compile(r'^\s*([*+]*[a-zA-Z]+[^0-9]*)([0-9]*)(\*?)(.*)$')
 
 def split(txt):
     m = re_data.search(txt)
